@@ -72,9 +72,10 @@ TUPLES = {"T2": ("pos", 2), "T12": ("p", 12)}
 
 class Gen:
     def __init__(self, rng, max_priors=8, allow_arith=True, allow_array=True, allow_extra=True,
-                 allow_tuple=True, allow_pow=True, allow_fixed_obj=True, allow_copy=True, allow_log=True):
+                 allow_tuple=True, allow_pow=True, allow_fixed_obj=True, allow_copy=True, allow_log=True, allow_unordered_array=False):
         self.rng = rng
         self.allow_log = allow_log
+        self.allow_unordered_array = allow_unordered_array
         self.allow_copy = allow_copy
         self.allow_fixed_obj = allow_fixed_obj
         self.prog = []
@@ -209,7 +210,7 @@ class Gen:
         if r < 0.78 and self.allow_array:
             h = self.fresh("a")
             shape = rng.choice([[2], [3], [2, 2], [1, 3]])
-            if rng.random() < 0.3:
+            if self.allow_unordered_array and rng.random() < 0.3:
                 # an empty array filled entry by entry, not in index order (every entry its own parameter or a constant)
                 self.prog.append({"op": "array", "h": h, "shape": shape, "prior": None})
                 import itertools
